@@ -40,6 +40,7 @@ type MPlan struct {
 	OptimizeOff bool    `json:"optimize_off,omitempty"`
 	OneLine     bool    `json:"one_line,omitempty"`  // script driver: the whole body on one source line (nested loops share a line)
 	NilStart    int     `json:"nil_start,omitempty"` // script driver: the map variable starts as a nil map; the first N items (reads only) run against it
+	Local       bool    `json:"local,omitempty"`    // script driver: the map variable is a local of run() (the optimizer fuses local/constant-key accesses)
 	Nest        int     `json:"nest,omitempty"`      // the map under test is a value 1 or 2 levels inside map[string]map[string]...: a["a"]["b"]; getmiss items read through a missing or nil level
 	Literal     bool    `json:"literal,omitempty"`   // the initial pairs are given to the constructor / a map literal with computed keys (repeats allowed: the last wins, as in Go)
 }
@@ -69,7 +70,7 @@ func (mapiter) Describe() core.EngineInfo {
 		Real:       []string{"goatlang stringMap/numericMap (Set/Get/Delete/Len/Range, key-list compaction), NewMap, codes SET/GET/GETOK/DELETE/LEN/RANGE/ITER and fused FASTGET/FASTSET through the compiler and VM"},
 		Stubs:      []string{"Go's randomised map iteration inside the key-list compaction -> seeded permutation (hook verifOrderStrings/verifOrderFloats)"},
 		Assumes:    []string{"no order is required of a range", "NaN keys excluded (as the property says)", "+0 and -0 are one key (as in Go)"},
-		ProbesWant: []string{"compactions", "cursor_across_compaction", "reinsert", "delete_ahead_of_cursor", "delete_behind_cursor", "delete_current", "insert_during_loop", "nested_cursors", "driver_host", "driver_script", "maps_keys", "one_line_script", "literal_with_repeated_key", "nil_map_start", "nested_map", "nested_miss", "clone_written", "exhausted", "abandoned"},
+		ProbesWant: []string{"compactions", "cursor_across_compaction", "reinsert", "delete_ahead_of_cursor", "delete_behind_cursor", "delete_current", "insert_during_loop", "nested_cursors", "driver_host", "driver_script", "maps_keys", "one_line_script", "literal_with_repeated_key", "nil_map_start", "nested_map", "nested_miss", "clone_written", "local_map_variable", "exhausted", "abandoned"},
 	}
 }
 
@@ -163,6 +164,7 @@ func (e mapiter) genPlan(r *core.PRNG) *MPlan {
 		p.ElemType = "slice"
 	}
 	p.OneLine = p.Driver == "script" && r.Chance(1, 3)
+	p.Local = p.Driver == "script" && r.Chance(1, 2)
 	p.Literal = r.Chance(1, 3)
 	if r.Chance(1, 4) {
 		p.Nest = 1 + r.Intn(2)
@@ -221,6 +223,9 @@ func (p *MPlan) keyValue(k int) goatlang.Value {
 		if k == 1 {
 			return goatlang.Float64(math.Copysign(0, -1)) // the same key as k == 0
 		}
+		if k == 5 {
+			return goatlang.Float64(3000000000) // written as an integer constant beyond int32 in the script
+		}
 		return goatlang.Float64(float64(k) / 4)
 	}
 	return goatlang.Bool(k%2 == 1)
@@ -254,6 +259,9 @@ func (p *MPlan) keyLit(k int) string {
 	case "float64":
 		if k == 1 {
 			return "negZero"
+		}
+		if k == 5 {
+			return "3000000000"
 		}
 		f := strconv.FormatFloat(float64(k)/4, 'f', -1, 64)
 		if !strings.Contains(f, ".") {
@@ -865,17 +873,25 @@ func (p *MPlan) render() string {
 	}
 	fmt.Fprintf(&b, "var c map[%s]%s\n", ks, es)
 	elide := p.Seed%2 == 0
+	decl := fmt.Sprintf("var %s = %s\n", mvar, p.mwrap(inner, map[bool]string{true: "{}", false: inner + "{}"}[elide && p.Nest > 0], elide))
 	if p.NilStart > 0 {
-		fmt.Fprintf(&b, "var %s %s\n", mvar, p.mtype(inner))
-	} else {
-		fmt.Fprintf(&b, "var %s = %s\n", mvar, p.mwrap(inner, map[bool]string{true: "{}", false: inner + "{}"}[elide && p.Nest > 0], elide))
+		decl = fmt.Sprintf("var %s %s\n", mvar, p.mtype(inner))
 	}
 	var body strings.Builder
+	if p.Local {
+		body.WriteString("\t" + decl)
+	} else {
+		b.WriteString(decl)
+	}
 	if p.Literal && len(p.Initial) > 0 {
 		// computed keys (variables), so that repeated keys are legal Go: the last pair wins
 		var pairs []string
 		for i, k := range p.Initial {
-			fmt.Fprintf(&body, "\tkv%d := %s\n", i, p.keyLit(k))
+			kl := p.keyLit(k)
+			if p.KeyType == "float64" && k == 5 {
+				kl = "3000000000.0" // a variable needs the float form: an integer constant would make it an int
+			}
+			fmt.Fprintf(&body, "\tkv%d := %s\n", i, kl)
 			pairs = append(pairs, fmt.Sprintf("kv%d: %s", i, p.elemLit(2000+i)))
 		}
 		if p.Nest > 0 && p.Seed%3 == 0 {
@@ -1021,6 +1037,9 @@ func (mapiter) Execute(plan any, keep bool) *core.Result {
 	if p.Nest > 0 && p.Driver == "script" {
 		run.h.C.Inc("nested_map")
 	}
+	if p.Local && p.Driver == "script" {
+		run.h.C.Inc("local_map_variable")
+	}
 	if p.Literal {
 		seenK := map[int]bool{}
 		for _, k := range p.Initial {
@@ -1161,6 +1180,9 @@ func (mapiter) Shrink(plan any) []func() any {
 	}
 	if p.Literal {
 		mod(func(q *MPlan) { q.Literal = false })
+	}
+	if p.Local {
+		mod(func(q *MPlan) { q.Local = false })
 	}
 	if p.Nest > 0 {
 		mod(func(q *MPlan) { q.Nest = 0 })
